@@ -407,7 +407,13 @@ example :
     * then `UpdateEnrichments(ctx, e.Updater, e.Fingerprint, e.Enrichment)` if
       `e.Enrichment != nil`, then `UpdateVulnerabilities(ctx, e.Updater,
       e.Fingerprint, e.Vuln)` if `e.Vuln != nil`, in this order, no `else`;
-    * `l.Err()` is consulted after the loop; nothing else is in the loop body. -/
+    * `l.Err()` is consulted after the loop and a non-nil error is returned
+      (a file that stops decoding is not imported silently in part);
+    * a failing store call ends the import with that error (no entry is
+      dropped silently: `if ref, err = …; err != nil { return … }` is the whole
+      guarded body);
+    * the loader reads the function's input, and `Next`, `Entry`, `Err` are
+      called on that one loader; nothing else is in the loop body but logging. -/
 theorem import_loop_shape_as_modelled :
     Gen.OfflineImport.opsKind = "VulnerabilityKind" ∧
     Gen.OfflineImport.rangeKey = "Updater" ∧
@@ -417,6 +423,10 @@ theorem import_loop_shape_as_modelled :
       [("Enrichment", "UpdateEnrichments", ["Updater", "Fingerprint", "Enrichment"]),
        ("Vuln", "UpdateVulnerabilities", ["Updater", "Fingerprint", "Vuln"])] ∧
     Gen.OfflineImport.errCheckedAfterLoop = true ∧
+    Gen.OfflineImport.loaderErrorReturned = true ∧
+    Gen.OfflineImport.storeErrorsNotReturned = 0 ∧
+    Gen.OfflineImport.loaderReadsTheInput = true ∧
+    Gen.OfflineImport.oneLoaderThroughout = true ∧
     Gen.OfflineImport.unrecognisedStatements = 0 := by
   decide
 
